@@ -48,7 +48,7 @@ def run(chk):
         "a container's contents are inserted contiguously (builders finish a nested region before continuing in the parent)",
     ]
     chk.not_covered += ["qubit allocation/measurement ordering relative to other effects beyond the classification table", "comprehensions and loops (TailLoop bodies)",
-                        "emulator-level observation of the result stream (the emulator cannot run branching programs in this sandbox)"]
+                        "emulator-level observation of the result stream for this property (C03 and C07 run such programs on the emulator; the C05 oracle reads the HUGR call sequence)"]
 
 
 # ------------------------------------------------------------------------------ P2
